@@ -7,12 +7,14 @@ CONFIG = dict(
         # server-side emission routes: raw response bytes of the real Server / AsyncServer (each with and without a
         # write timeout: different framing branches) and WebSocketServer, compared with each other and with the model
         dict(name="dispatch", bin="fam_dispatch", args=[], exe="repe_model_dispatch", profile="dev", timeout=1500),
+        # client-side emission routes: raw request bytes of the real Client / AsyncClient / WebSocketClient
+        dict(name="emit", bin="fam_emit", args=[], exe="repe_model_wire", profile="dev", timeout=900),
     ],
     trusted_base=TB_COMMON + ["Vec::resize/copy_within/copy_from_slice behave as fill/memmove/copy (std)"],
     assumptions=["header fields are within their Rust integer widths (Header.InRange) - true of every Rust value",
                  "48+|query|+|body| < 2^64 for the builder theorems"],
     manifest=dict(
         text="Lean 4 theorems over a model of header/message framing: the layout tables re-extracted from Header::encode/decode equal the REPE v1 layout (decide), encode is 48 bytes with little-endian fields at the spec offsets, decode∘encode = id for every in-range header (reserved bits, unknown format codes), one encoding, and to_vec = write_to = into_wire_bytes (every body capacity, in-place and fresh branch) = write_message_streaming; TCP echo framing = WebSocket stamping. Tied to /repo by fact extraction plus a differential run of every emission route of the real crate against the model executable and an independent layout oracle.",
-        note="Lean kernel; axioms propext/Classical.choice/Quot.sound only; extractor + harness + driver trusted; Vec primitives modelled as list operations; server-side framing over sockets is exercised by the `dispatch` family (raw responses of five real endpoints compared pairwise and with the model); client-side emission over sockets by the C04/C05 families.",
+        note="Lean kernel; axioms propext/Classical.choice/Quot.sound only; extractor + harness + driver trusted; Vec primitives modelled as list operations; server-side framing over sockets is exercised by the `dispatch` family (raw responses of five real endpoints compared pairwise and with the model); client-side emission over sockets by the `emit` family (raw request frames of the three real clients captured by a recording peer and compared with the builder frame).",
         technique="Lean 4 proof (round-trip/algebraic laws) + regenerated layout facts + differential correspondence"),
 )
